@@ -27,7 +27,6 @@ def run(path):
 
 # refactorings outside the verified forms even after the second-chance normal form (DESIGN A.7): reported as "unproven"
 KNOWN_UNPROVEN = {
-    "ben6-1.diff": "grouping loop driven by a generator helper (yield is outside the analysed subset)",
     "ben6-2.diff": "open-note scan moved to a helper returning the element (caller tests `is not None`), lane loop with an explicit if instead of filter()",
     "ben8-1.diff": "metadata line scan moved to a method of the field-spec class",
     "ben8-2.diff": "metadata setters restructured around a `required` flag",
